@@ -115,6 +115,28 @@ def main():
     model = req.get('concrete') or {k: v for k, v in (req.get('inputs') or {}).items() if k != 'self'}
     args = {k: from_model(v) for k, v in model.items()}
     s = make_session()
+    if '.post.' in (req.get('obligation') or '') and meth == 'block_headers':
+        # functional postcondition of blockchain.block.headers, evaluated on the real handler for the
+        # model's arguments and for the boundary triples around the cap and the chain end
+        s.db.state.height = 5000
+        cands = [args] + [{'start_height': st, 'count': c, 'cp_height': 0}
+                          for st in (0, 1, 2984, 2985, 4999, 5000, 5001) for c in (0, 1, 2015, 2016, 2017, 4000)]
+        for a in cands:
+            try:
+                r = asyncio.run(s.block_headers(**a))
+            except RPCError:
+                continue
+            except BaseException as e:   # noqa
+                print(json.dumps({'reproduced': True, 'input': a, 'detail': f'raises {e!r}'}, default=repr))
+                return
+            want = max(0, min(int(a['count']), 2016, 5000 + 1 - int(a['start_height'])))
+            if r['count'] > 2016 or r['count'] != want or len(r['hex']) != 160 * r['count'] or r['max'] != 2016:
+                print(json.dumps({'reproduced': True, 'input': a,
+                                  'detail': f"block_headers returned count={r['count']} max={r['max']} "
+                                            f"hexlen={len(r['hex'])}; the statement gives count={want}"}, default=repr))
+                return
+        print(json.dumps({'reproduced': False, 'detail': f'{len(cands)} argument triples agree with the formula'}))
+        return
     try:
         asyncio.run(getattr(s, meth)(**args))
         got = None
